@@ -830,6 +830,32 @@ def rule_depth_unbounded(ctx: Ctx, rid="C14.DEPTH-UNBOUNDED"):
         ctx.rep.ok(rid, f"{GEN}:PythonCodeGen[{', '.join(sorted(counters))}]", "the depth counter is never used as a slice bound nor clamped")
 
 
+def rule_locals_shadow_fields(ctx: Ctx, rid, kinds=("def", "assign"), consequence=""):
+    """Field names are written verbatim as parameters of the generated function.  Every other name that function binds in its
+    own body - the nested helper's `def`, a local such as `key = ...` - overwrites a field of the same name before it is used:
+    the key then hashes (or the predicate then compares) the repr of a function or partial instead of the field's value."""
+    bound = {}
+    for o, ir, err in irs(ctx):
+        if ir is None or o.expose:
+            continue          # the layout the evaluator compiles
+        own = _prog_ident_names(o.prog)
+        if "def" in kinds and ir.get("helper_nested"):
+            for nme in [ir["helper_name"]] + list(ir.get("extra_nested_defs", [])):
+                if nme not in own:
+                    bound.setdefault(nme, "the nested function definition")
+        if "assign" in kinds:
+            for nme in ir.get("main_locals", []):
+                if nme not in own:
+                    bound.setdefault(nme, "a local assignment")
+    base = f"{GEN}:PythonCodeGen.generate"
+    for nme, how in sorted(bound.items()):
+        ctx.rep.bad(rid, base + f"[generated local {nme}]", f"a field named `{nme}` is overwritten by {how} of the same name inside the "
+                    f"generated function before it is used{': ' + consequence if consequence else ''}",
+                    witness=f"def e{{ splitters: {nme} return \"A\" weighted 1, \"B\" weighted 1 }}", text=f"generated local {nme}")
+    if not bound:
+        ctx.rep.ok(rid, base + "[generated locals]", "the generated function binds no name of its own that a field could carry")
+
+
 def _prog_ident_names(prog) -> set:
     """Names of all DSL identifiers of a shape program (they are never skeleton names, whatever route they take
     through the generator)."""
